@@ -13,5 +13,6 @@ CONSTANTS
   BinStarts = {0, 65, 128, 200, 255}
   BinStrides = {1, 57}
   BinNs = {1, 2, 5, 31, 32, 33, 62, 120}
+  UseForced = FALSE
   NFaults = 3
 CHECK_DEADLOCK FALSE
